@@ -34,7 +34,8 @@ func class(s string) string {
 // clean ending, and anything else has to be a diagnostic
 var unsupportedKinds = []string{"chan", "func", "iface", "unsafeptr", "ustruct",
 	"ustruct1", "ustruct1c", "ustruct0", "ustructblank", "blankfield", "blankonly",
-	"ptrint", "ptrkeystruct", "ustructtag", "recvchan", "sendchan"}
+	"ptrint", "ptrkeystruct", "ustructtag", "recvchan", "sendchan",
+	"ustructblankfunc", "selfptr", "hashmeth", "equalother", "compareother"}
 var positions = []string{"top", "field", "elem", "value", "ptr", "key", "arrayelem", "nested"}
 var typedPlugins = []string{"equal", "equalc", "compare", "hash", "deepcopy", "clone", "gostring", "keys", "sort", "minl", "maxt", "contains", "unique", "set", "unionl", "intersectm", "filter", "mem", "fmap", "join", "tuple", "traverse"}
 
@@ -71,6 +72,18 @@ func unsupported(kind string) *progen.Type {
 			{Name: "B", Type: progen.SliceOf(progen.B("string"))}, {Name: "_", Type: progen.B("string")}}})
 	case "blankonly":
 		return progen.NamedT(&progen.Decl{Name: "BlankOnly", IsStruct: true, Fields: []progen.Field{{Name: "_", Type: progen.B("int")}}})
+	case "ustructblankfunc": // nothing that could be compared, and not comparable with ==
+		return &progen.Type{Kind: progen.UStruct, Text: "struct{ _ func() }", Fields: []progen.Field{{Name: "_", Type: &progen.Type{Kind: progen.Func, Text: "func()"}}}}
+	case "selfptr": // type SelfP *SelfP
+		d := &progen.Decl{Name: "SelfP"}
+		d.Under = progen.PtrTo(progen.NamedT(d))
+		return progen.NamedT(d)
+	case "hashmeth": // the one Hash method the hash plugin looks for
+		return progen.NamedT(&progen.Decl{Name: "HashM", IsStruct: true, Fields: []progen.Field{{Name: "A", Type: progen.B("int")}, {Name: "L", Type: progen.SliceOf(progen.B("int"))}}})
+	case "equalother": // methods called Equal / Compare that are no equality / order on the type
+		return progen.NamedT(&progen.Decl{Name: "EqualO", IsStruct: true, Fields: []progen.Field{{Name: "A", Type: progen.B("int")}, {Name: "L", Type: progen.SliceOf(progen.B("int"))}}})
+	case "compareother":
+		return progen.NamedT(&progen.Decl{Name: "CompareO", IsStruct: true, Fields: []progen.Field{{Name: "A", Type: progen.B("int")}, {Name: "L", Type: progen.SliceOf(progen.B("int"))}}})
 	default:
 		return &progen.Type{Kind: progen.UStruct, Fields: []progen.Field{{Name: "A", Type: progen.SliceOf(progen.B("int"))}, {Name: "B", Type: progen.B("string")}}}
 	}
@@ -85,6 +98,14 @@ func kindDecl(kind string) string {
 		return "type BlankOnly struct {\n\t_ int\n}\n\n"
 	case "ptrkeystruct":
 		return "type PKey struct {\n\tA int\n\tP *int\n}\n\n"
+	case "selfptr":
+		return "type SelfP *SelfP\n\n"
+	case "hashmeth":
+		return "type HashM struct {\n\tA int\n\tL []int\n}\n\nfunc (h HashM) Hash() int32 { return int32(h.A) }\n\n"
+	case "equalother":
+		return "type EqualO struct {\n\tA int\n\tL []int\n}\n\nfunc (e EqualO) Equal(s string) bool { return s == \"\" }\n\n"
+	case "compareother":
+		return "type CompareO struct {\n\tA int\n\tL []int\n}\n\nfunc (e CompareO) Compare(s string) int { return len(s) }\n\n"
 	}
 	return ""
 }
@@ -99,7 +120,7 @@ type faultCase struct {
 
 func goKeyOK(kind string) bool {
 	switch kind {
-	case "chan", "iface", "unsafeptr", "ptrint", "ptrkeystruct", "recvchan", "sendchan", "ustruct1c", "ustruct0", "blankonly":
+	case "chan", "iface", "unsafeptr", "ptrint", "ptrkeystruct", "recvchan", "sendchan", "ustruct1c", "ustruct0", "blankonly", "selfptr":
 		return true
 	}
 	return false
@@ -314,7 +335,29 @@ const namedFuncDecls = "type FnE func() (int, error)\n\ntype FnIE func(int) (int
 	"type FnC func(int) func(string) bool\n\ntype Fn1 func(int) int\n\ntype FnB func(int) (string, bool)\n\ntype FnSE func(int) (string, error)\n\n" +
 	"type FnR func(rune) int\n\ntype Pred func(int) bool\n\ntype St1 func(int) <-chan string\n\ntype St2 func(string) <-chan int\n\ntype FnJ func() (func() (int, error), error)\x00"
 
+const concreteErrDecls = "type MyErr struct{ C int }\n\nfunc (m MyErr) Error() string { return \"\" }\n\ntype PErr struct{ C int }\n\nfunc (m *PErr) Error() string { return \"\" }\x00"
+
 func init() {
+	// a type that implements error where the predeclared error is spelled out by the generated code
+	for _, m := range []misuse{
+		{"concrete-error", "compose", "deriveComposeX(func(int) (string, MyErr) { return \"\", MyErr{} }, func(string) (int, error) { return 0, nil })"},
+		{"concrete-error", "compose", "deriveComposeX(func(int) (string, error) { return \"\", nil }, func(string) (int, *PErr) { return 0, nil })"},
+		{"concrete-error", "traverse", "deriveTraverseX(func(int) (string, MyErr) { return \"\", MyErr{} }, []int{})"},
+		{"concrete-error", "do", "deriveDoX(func() (int, MyErr) { return 0, MyErr{} }, func() (string, error) { return \"\", nil })"},
+		{"concrete-error", "fmap", "deriveFmapX(func(int) string { return \"\" }, func() (int, *PErr) { return 0, nil })"},
+		{"concrete-error", "join", "deriveJoinX(func() (int, MyErr) { return 0, MyErr{} }, error(nil))"},
+		{"concrete-error", "join", "deriveJoinX(func() (int, error) { return 0, nil }, MyErr{})"},
+		{"concrete-error", "toerror", "deriveToErrorX(MyErr{}, func(int) (string, bool) { return \"\", true })"},
+		{"concrete-error", "toerror", "deriveToErrorX(&PErr{}, func(int) bool { return true })"},
+	} {
+		m.call = concreteErrDecls + m.call
+		misuses = append(misuses, m)
+	}
+	misuses = append(misuses,
+		misuse{"bidirectional-stage", "pipeline", "derivePipelineX(func(int) <-chan string { return nil }, func(string) chan int { return nil })"},
+		misuse{"bidirectional-stage", "pipeline", "derivePipelineX(func(int) chan string { return nil }, func(string) <-chan int { return nil })"},
+		misuse{"bidirectional-stage", "pipeline", "derivePipelineX(func(int) chan string { return nil }, func(string) chan int { return nil })"},
+	)
 	// a value of a defined function type where a function is expected: every plugin either takes it (and
 	// then has to generate for it) or reports it
 	for _, m := range []misuse{
